@@ -43,7 +43,11 @@ func (p zzC05Plan) files() []*descriptorpb.FileDescriptorProto {
 	if !p.cNoPkg {
 		c.Package = proto.String("q")
 	}
-	return []*descriptorpb.FileDescriptorProto{a, b, c}
+	fs := []*descriptorpb.FileDescriptorProto{a, b, c}
+	if zzOverride {
+		fs = append(fs, &descriptorpb.FileDescriptorProto{Name: proto.String(descriptorProtoPath), Syntax: proto.String("proto2"), Package: proto.String("google.protobuf")})
+	}
+	return fs
 }
 
 // zzLinkOnly replaces (*task).link: linker.Link (symbol table, reference resolution) and the
@@ -112,8 +116,10 @@ func zzC05Compile(p zzC05Plan, par int, req []string) zzC05Out {
 func HarnessC05() {
 	p := zzC05Plan{aImpB: zz.Choice(2) == 1, aImpC: zz.Choice(2) == 1, bImpC: zz.Choice(2) == 1, ref: zz.Choice(3), bName: zz.Choice(2), cName: zz.Choice(2)}
 	orders := [][]string{{"a.proto", "b.proto", "c.proto"}, {"c.proto", "b.proto", "a.proto"}, {"b.proto", "a.proto", "c.proto"}, {"c.proto", "a.proto", "b.proto"}}
+	zzOverride = false
 	if zz.Tier() == 1 {
 		p.cNoPkg = zz.Choice(2) == 1
+		zzOverride = zz.Choice(2) == 1 // the resolver overrides descriptor.proto (implicit dependency of every file)
 	}
 	ord := orders[zz.Choice(len(orders))]
 	par := 1 + zz.Choice(2)
